@@ -111,6 +111,18 @@ func run(tapeJSON json.RawMessage, res *core.Result) {
 			return
 		}
 	}
+	// a cache lock that is never released again: every later presentation waits for ever
+	engine.AbortHook = func(kind, detail string, r *core.Result) {
+		if kind != "lock-stuck" {
+			r.Verdict, r.Harness = "harness-error", kind+": "+detail
+			return
+		}
+		site := detail
+		if i := strings.Index(site, " owner="); i > 0 {
+			site = site[:i]
+		}
+		engine.Violate(r, "presentation-never-returns|lock-stuck|"+site, map[string]string{"kind": kind, "detail": detail})
+	}
 	rc := service.GetReplayCache(skew) // created by task 0; its clean-up goroutine becomes a task on first lock
 	altSkew := time.Duration(tp.AltMs) * time.Millisecond
 	alt2Skew := time.Duration(tp.Alt2Ms) * time.Millisecond
